@@ -20,6 +20,7 @@ CONSTRAINT Progress
 POSTCONDITION Accept
 CHECK_DEADLOCK FALSE
 SPECIFICATION HCSpec
+VIEW hview
 INVARIANT SingleFlight
 INVARIANT ListMapBij
 INVARIANT ItemsUnlocked
